@@ -80,7 +80,7 @@ def oracle(prog, s):
     if left and not closed and any(n == "cons" for n, _ in s.blocked_after):
         bad.append(("exactly_once", f"items {left} stay queued while the consumer is blocked (lost wake-up)"))
     # (B) every native event of a completely processed read (markers aside) was put exactly once
-    reader_trace = [e for e in s.trace if e[0] == "InotifyBuffer" and e[1] != "@log"]
+    reader_trace = [e for e in s.trace if e[0] == "InotifyBuffer"]
     reader_done = any(t.name == "InotifyBuffer" and t.done for t in s.threads)
     complete = len(read_batches) if (reader_done or (reader_trace and reader_trace[-1][1] == "read_events")) else len(read_batches) - 1
     want = sorted(v for b, _ in read_batches[:max(complete, 0)] for v in b if kind[v][0] != "ign")
